@@ -68,8 +68,8 @@ func allocsAfter(pre, f func()) float64 {
 }
 
 type allocAPI struct {
-	parse   func(string) bool
-	obj     interface {
+	parse func(string) bool
+	obj   interface {
 		Get(string) (string, error)
 		Set(string, string) error
 		Vector() string
@@ -251,6 +251,23 @@ func TestC17(t *testing.T) {
 			h.R.AddExact(int64(len(singles)), int64(len(singles)))
 			h.R.Count("exhaustive: each optional metric x each value, alone and with all other optional metrics defined", int64(len(singles)))
 		}
+	}
+	// exact totals over long streams: one vector many times, and feeds of different objects
+	if !doReplay(h, "stream", checkStream) {
+		sc := streamCases(env.Scale(60000, 1000000), env.Scale(8000, 15000), int(env.Seed%5)*4000)
+		for _, c := range sc {
+			if err := safely(checkStream, c); err != nil {
+				h.fail("stream", c, err)
+			}
+		}
+		h.R.AddExact(int64(len(sc)), int64(len(sc)))
+		var calls int64
+		for _, c := range sc {
+			calls += int64(c.N)
+		}
+		h.R.Count("stream measurements (exact allocation totals over long runs / feeds of different objects)", int64(len(sc)))
+		h.R.Count("calls inside stream measurements", calls)
+		h.R.Sample("stream", sc[len(sc)-1])
 	}
 	for vi := range spec.Versions {
 		vi := vi
